@@ -61,7 +61,23 @@ pub fn one_case(r: &mut Rng, n: usize, steps: usize, ips: usize) -> String {
             (format!("ORemove {}%nat", k), false)
         } else if choice < 19 {
             // re-key: sometimes to an id that collapses many nodes into one bucket
-            let new_id = if r.chance(1, 2) || u.is_empty() { id20(r) } else { id_at_distance(&r.pick(&u).id.clone(), 160, r) };
+            // ... and sometimes to the very id of a node (in the table or not): that node must not stay
+            let new_id = if u.is_empty() {
+                id20(r)
+            } else {
+                match r.below(3) {
+                    0 => id20(r),
+                    1 => id_at_distance(&r.pick(&u).id.clone(), 160, r),
+                    _ => {
+                        let inside = t.to_owned_nodes();
+                        if !inside.is_empty() && r.chance(2, 3) {
+                            *r.pick(&inside).id().as_bytes()
+                        } else {
+                            r.pick(&u).id
+                        }
+                    }
+                }
+            };
             dht::verif::routing_table_reset_id(&mut t, Id::from(new_id));
             (format!("OReset {}", n_hex(&new_id)), false)
         } else {
